@@ -22,14 +22,16 @@ def _build(W, N1, N2, E, trainable, rate1=20):
 
     n1 = ProbeNode(name="snd", rate=rate1, delay_dist=Deterministic(0.01))
     n2 = ProbeNode(name="rcv", rate=10, delay_dist=Deterministic(0.01))
-    dd = TrainableDist.create(0.01, 0.0, 0.05) if trainable else Deterministic(0.01)  # ext = ceil(20*0.05) = 1
+    # trainable range 0.075 s: ext = ceil(rate_sender * 0.075) = 2 at the sender's 20 Hz, but 1 at the receiver's 10 Hz -- the extension is by the *sender's* rate
+    dd = TrainableDist.create(0.01, 0.0, 0.075) if trainable else Deterministic(0.01)
     n2.connect(n1, window=W, blocking=False, delay_dist=dd)
     nodes = {"snd": n1, "rcv": n2}
     z = lambda n, dt: np.zeros(n, dt)
     graph = Graph(vertices={"snd": Vertex(seq=z(N1, np.int32), ts_start=z(N1, np.float32), ts_end=z(N1, np.float32)),
                             "rcv": Vertex(seq=z(N2, np.int32), ts_start=z(N2, np.float32), ts_end=z(N2, np.float32))},
                   edges={("snd", "rcv"): Edge(seq_out=z(E, np.int32), seq_in=z(E, np.int32), ts_recv=z(E, np.float32))})
-    ext = n2.inputs["snd"].delay_dist.window(rate1)
+    from fractions import Fraction
+    ext = int(-((-Fraction(rate1) * Fraction(75, 1000)) // 1)) if trainable else 0  # the oracle's own count: messages a sender of this rate can have in flight within [min, max]
     return nodes, graph, W + ext
 
 
@@ -103,13 +105,21 @@ def worker_window(cfg, tier):
     gin = tr.in_pytree(flat)[0]
     inv = invariant(gin)
     tmo = 120 if tier == "quick" else 600
+    try:
+        got_len = tr.run(it, flat).vertices["rcv"].windows["snd"].seq.v.shape[-1]
+    except Exception as e_:  # noqa
+        got_len = f"error: {e_!r}"[:120]
+    if got_len != Wtot:
+        return [Ob("apply_window: every step's window has window + ceil(rate_sender*(max-min)) entries", "sat", 0, cfg, detail=f"window length {got_len}, expected {Wtot}", key="apply-window-length",
+                   what=f"apply_window hands the receiver windows of {got_len} entries; window + extension for the sender's rate is {Wtot}", replayed=True)]
+    obs_len = [Ob("apply_window: every step's window has window + ceil(rate_sender*(max-min)) entries", "unsat", 0, cfg, trivial=True, key="apply-window-length", replayed=True)]
     o = cg.prove_with_replay("apply_window: window of step k = last window+ext messages with 0<=seq_in<=k, oldest first, (-1,0,0)-padded",
                              cfg, it, tr, flat, inv, goal, "apply-window",
                              "apply_window hands a receiver step a window that is not the last `window` consumed messages (oldest first, default-padded)",
                              timeout=tmo, grid=(-1, 8))
-    obs = [o]
+    obs = obs_len + [o]
     e = gin.edges[("snd", "rcv")]
-    v, m, s = smt.satisfiable(inv + [e.seq_in.flat()[E - 1] >= 1, gin.vertices["rcv"].seq.flat()[N2 - 1] >= 0], 30)
+    v, m, s = smt.satisfiable(inv + [e.seq_in.flat()[min(E, N1) - 1] >= 1, gin.vertices["rcv"].seq.flat()[N2 - 1] >= 0], 30)  # last edge that can be real (edges beyond the sender's vertices are padding)
     obs.append(Ob("twin.full_graph_reachable", v, s, cfg, kind="vacuity"))
     v, m, s = smt.satisfiable(inv + [e.seq_out.flat()[E - 1] == -1, e.seq_out.flat()[0] == 0], 30)
     obs.append(Ob("twin.padded_edges_reachable", v, s, cfg, kind="vacuity"))
